@@ -84,6 +84,26 @@ class Session:
             self.defined_terms += 1
 
     def check(self, assertions, want_model=False, model_vars=()):
+        """one query; an `unknown` / time-out (never an error) is retried ONCE in a fresh solver process with five times the time limit:
+        the limits are wall-clock, and a loaded machine can push a sub-second query over a one-minute limit"""
+        ans, dt, model = self._check_once(assertions, want_model, model_vars)
+        if ans == 'unknown' and not getattr(self, '_retrying', False):
+            self._retrying = True
+            old = self.timeout_s
+            try:
+                if not self.dead:
+                    self.p.kill()
+                    self.dead = True
+                self.timeout_s = old * 5
+                ans2, dt2, model2 = self._check_once(assertions, want_model, model_vars)
+                self.retried = getattr(self, 'retried', 0) + 1
+                ans, dt, model = ans2, dt + dt2, model2
+            finally:
+                self.timeout_s = old
+                self._retrying = False
+        return ans, dt, model
+
+    def _check_once(self, assertions, want_model=False, model_vars=()):
         """push; assert all; check-sat; pop.  returns (answer, seconds, model dict|None).
         any '(error' line makes the answer 'error' (inconclusive)."""
         if self.dead:
